@@ -171,17 +171,30 @@ pub fn run_trial(seed: u64, delay_us: u64, mode: u8, nets: usize) -> i32 {
                     // the address must be re-bindable at once
                     let rebind = std::net::UdpSocket::bind(a);
                     let mut rebind_ok = rebind.is_ok();
+                    let mut late_ms: Option<u64> = None;
                     if !rebind_ok && port_held_by_self(a.port()) == Some(false) {
                         println!("NOTE port {} was taken by another process right after it was freed", a.port());
                         rebind_ok = true;
                     }
                     drop(rebind);
-                    (a, r.is_ok(), rebind_ok, n.is_closed(), n.peers().len(), n.subscribe().is_err(), n.downgrade().upgrade().is_none(), took)
+                    if !rebind_ok {
+                        // is the old socket released a moment later, without anybody doing anything?
+                        let t1 = Instant::now();
+                        while t1.elapsed() < Duration::from_millis(1_500) {
+                            tokio::time::sleep(Duration::from_millis(5)).await;
+                            if std::net::UdpSocket::bind(a).is_ok() || port_held_by_self(a.port()) == Some(false) {
+                                late_ms = Some(t1.elapsed().as_millis() as u64);
+                                break;
+                            }
+                        }
+                    }
+                    let late = late_ms.map(|m| m as i64).unwrap_or(-1);
+                    (a, r.is_ok(), rebind_ok, n.is_closed(), n.peers().len(), n.subscribe().is_err(), n.downgrade().upgrade().is_none(), took, late)
                 });
                 futures::future::join_all(futs).await
             });
-            for (a, returned, rebound, closed, peers, sub_err, weak_dead, took) in res {
-                println!("SHUTDOWN addr={a} returned={returned} rebind_ok={rebound} closed={closed} peers={peers} subscribe_err={sub_err} weak_dead={weak_dead} took_ms={took} idle_bound_ms={idle_ms}");
+            for (a, returned, rebound, closed, peers, sub_err, weak_dead, took, late) in res {
+                println!("SHUTDOWN addr={a} returned={returned} rebind_ok={rebound} closed={closed} peers={peers} subscribe_err={sub_err} weak_dead={weak_dead} took_ms={took} idle_bound_ms={idle_ms} rebind_late_ms={late}");
                 // (the duration is judged in virtual time by the simulated scenarios, not here: a
                 // wall-clock deadline on a loaded machine is not a verdict)
                 if !(returned && rebound && closed && peers == 0 && sub_err && weak_dead) {
